@@ -168,9 +168,14 @@ def run():
         n_real = n_util + len(erecs)
         stage("ego harness done")
         # 4. binding self-test: known-bad pairs appended after the real ones must be flagged by the contract
-        real = [json.loads(l) for i, l in enumerate(open(io)) if i < 4000]
-        okrt = [x for x in real if x["k"] == "rt" and not x["err"] and x["x"]["min"] > 2]
-        oksp = [x for x in real if x["k"] == "sp" and not x["err"]]
+        okrt, oksp = [], []
+        for l in open(io):
+            if '"err":false' in l and len(okrt if '"k":"rt"' in l else oksp) < 2000:
+                x = json.loads(l)
+                if x["k"] == "sp":
+                    oksp.append(x)
+                elif x["x"]["min"] > 2:
+                    okrt.append(x)
         if not okrt or not oksp:
             raise vf.NoVerdict("self-test: no accepted round trip / spelling among the first records (nothing to corrupt)")
         b1 = json.loads(json.dumps(rng.choice(okrt))); b1["y"]["sec"] = (b1["y"]["sec"] + 1) % 60      # off by one second
@@ -252,6 +257,6 @@ def run():
                            "Ego time package); distinct_nontrivial = distinct abstract classes (path:kind/sign/fields/spacing) judged")
         chk.cov["exhaustive"] = bool(thorough)
         chk.cov["window_seconds"] = 180000 if thorough else 0
-        for c in (real[0], oksp[0], erecs[0]):
+        for c in (okrt[0], oksp[0], erecs[0]):
             chk.sample({"kind": "judged I/O pair", "record": c})
     return chk.finish()
